@@ -594,6 +594,7 @@ func c09LazyCaches(p *an.Prog, r *an.R) {
 	}
 	type dep struct{ cache, source, where string }
 	var deps []dep
+	mapDeps := map[string]string{}           // "F<-D" -> function that fills the memo
 	storesBy := map[string]map[string]bool{} // function -> fields stored
 	var funcs []*ssa.Function
 	for _, f := range p.SSAFuncs() {
@@ -645,6 +646,93 @@ func c09LazyCaches(p *an.Prog, r *an.R) {
 						reads[n] = true
 					}
 				}
+			case *ssa.Call:
+				// clear(b.F) empties the memo: as good as storing a fresh one
+				if bi, ok := x.Call.Value.(*ssa.Builtin); ok && bi.Name() == "clear" && len(x.Call.Args) == 1 {
+					if ld, ok := x.Call.Args[0].(*ssa.UnOp); ok && ld.Op == token.MUL {
+						if n := fieldOf(ld.X); n != "" {
+							st[n] = true
+						}
+					}
+				}
+			case *ssa.MapUpdate:
+				// a map-valued field used as a memo: `b.F[k] = v` where v, or a condition the update depends on, is
+				// computed from another builder field D - F then caches something about D
+				ld, ok := x.Map.(*ssa.UnOp)
+				if !ok || ld.Op != token.MUL {
+					return
+				}
+				cache := fieldOf(ld.X)
+				if cache == "" {
+					return
+				}
+				roots := []ssa.Value{x.Value}
+				for d := b.Idom(); d != nil; d = d.Idom() {
+					if len(d.Instrs) == 0 {
+						continue
+					}
+					iff, ok := d.Instrs[len(d.Instrs)-1].(*ssa.If)
+					if !ok {
+						continue
+					}
+					// d controls the update if only one of its successors leads to it (without passing d again)
+					leads := 0
+					for _, s := range d.Succs {
+						seen := map[*ssa.BasicBlock]bool{d: true}
+						work := []*ssa.BasicBlock{s}
+						hit := false
+						for len(work) > 0 && !hit {
+							c := work[len(work)-1]
+							work = work[:len(work)-1]
+							if seen[c] {
+								continue
+							}
+							seen[c] = true
+							if c == b {
+								hit = true
+							}
+							work = append(work, c.Succs...)
+						}
+						if hit {
+							leads++
+						}
+					}
+					if leads == 1 && len(roots) < 3 {
+						// the two nearest conditions only: further up are the error exits of the function, which every
+						// later statement "depends" on without being derived from what they test
+						roots = append(roots, iff.Cond)
+					}
+				}
+				seenV := map[ssa.Value]bool{}
+				var walk func(v ssa.Value, depth int)
+				walk = func(v ssa.Value, depth int) {
+					if v == nil || seenV[v] || depth > 14 {
+						return
+					}
+					seenV[v] = true
+					if u, ok := v.(*ssa.UnOp); ok && u.Op == token.MUL {
+						if n := fieldOf(u.X); n != "" && n != cache {
+							mapDeps[cache+"<-"+n] = an.SSAName(f)
+						}
+						if al, ok := u.X.(*ssa.Alloc); ok && al.Referrers() != nil {
+							for _, ref := range *al.Referrers() {
+								if st, ok := ref.(*ssa.Store); ok && st.Addr == al {
+									walk(st.Val, depth+1)
+								}
+							}
+						}
+					}
+					if in, ok := v.(ssa.Instruction); ok {
+						for _, op := range in.Operands(nil) {
+							if *op != nil {
+								walk(*op, depth+1)
+							}
+						}
+					}
+				}
+				for _, rt := range roots {
+					walk(rt, 0)
+				}
 			}
 		})
 		storesBy[an.SSAName(f)] = st
@@ -655,6 +743,10 @@ func c09LazyCaches(p *an.Prog, r *an.R) {
 				}
 			}
 		}
+	}
+	for k, where := range mapDeps {
+		parts := strings.SplitN(k, "<-", 2)
+		deps = append(deps, dep{parts[0], parts[1], where})
 	}
 	sort.Slice(deps, func(i, j int) bool { return deps[i].cache+deps[i].source < deps[j].cache+deps[j].source })
 	n := 0
